@@ -64,4 +64,18 @@ CLAIMED = {
              "put_internal increments pending_frame_inserts before the next append/Ok, the counter is reset only after apply_records, next_frame_id reads len + counter only.",
         note="Not decided: equality of next_frame_id() with the id later assigned across auto-checkpoints and reopen (value reasoning over histories).",
         design_ref="DESIGN.md §4 C06"),
+    "C08": dict(
+        technique="MIR must-pass-through with edge cuts (apply_records), sibling agreement of the two mark_* functions, index-field coverage table, crate-wide feeder scan, PutOptions->WAL data-flow agreement",
+        text="Partial: delete/supersede both store a non-Active status and reach remove_frame_from_indexes on every Ok path, which purges every in-memory index the "
+             "search paths read; apply_records cannot push a superseding frame, nor consume a tombstone, without marking the old frame; every function that walks "
+             "toc.frames and feeds an index tests FrameStatus::Active; the PutOptions data fields persisted by put_internal are compared with those update_frame inherits.",
+        note="Not decided: what search/timeline return (values). Known finding (open): update_frame does not inherit role/source_path/parent_id.",
+        design_ref="DESIGN.md §4 C08"),
+    "C11": dict(
+        technique="flow- and field-sensitive def-use analysis of the candidate-filter variable in Memvid::search (found by type/use) + edge-cut reachability in get_replay_frame_ids + dead-parameter check in the three engines",
+        text="Partial, strong: after the replay stage the candidate filter can only narrow (every redefinition in the Some(existing) arm derives from existing), the replay "
+             "ids reach the filter in both arms and all three engine paths receive and use that filter; get_replay_frame_ids pushes frame.id only past "
+             "(cut-off None | frame.id <= cut-off) and (None | frame.timestamp <= cut-off), never through a binary search on a non-id key.",
+        note="Not decided: what the engines return beyond honouring the filter. The rule found a genuine defect (sketch-only fallback dropped the replay filter), repaired by fix commit 321ffd9.",
+        design_ref="DESIGN.md §4 C11"),
 }
